@@ -157,15 +157,19 @@ DoBuildTable(st)      == IF st.pop THEN st ELSE [st EXCEPT !.pop = TRUE, !.tab =
 \* =============================================================================================
 \* Part 5 - clocks
 \* =============================================================================================
-\* day of the month without the search of Civil!MonthOf
-DayNo(o) == LET y == YearOf(o) IN o - DaysBeforeYear(y) - DaysBeforeMonth(y, MonthNo(o))
+\* day of the year, and the days of the year on which a month / a quarter begins (L = 1 in a leap year);
+\* MC_SessionsClock checks them against Civil!DayOf / Civil!MonthOf on the days it visits
+DOY(o) == o - DaysBeforeYear(YearOf(o))
+LeapNo(o) == IF IsLeap(YearOf(o)) THEN 1 ELSE 0
+MonthStarts(L)   == {1, 32, 60 + L, 91 + L, 121 + L, 152 + L, 182 + L, 213 + L, 244 + L, 274 + L, 305 + L, 335 + L}
+QuarterStarts(L) == {1, 91 + L, 182 + L, 274 + L}
 \* does day x begin a unit?  (weeks begin on weekday p)
 Begins(kind, p, x) ==
     CASE kind = "d" -> TRUE
       [] kind = "w" -> Weekday(x) = p
-      [] kind = "m" -> DayNo(x) = 1
-      [] kind = "q" -> DayNo(x) = 1 /\ MonthNo(x) \in {1, 4, 7, 10}
-      [] kind = "y" -> DayNo(x) = 1 /\ MonthNo(x) = 1
+      [] kind = "m" -> DOY(x) \in MonthStarts(LeapNo(x))
+      [] kind = "q" -> DOY(x) \in QuarterStarts(LeapNo(x))
+      [] kind = "y" -> DOY(x) = 1
 \* units crossed from day x to day y >= x, by counting the days that begin one
 Crossed(kind, p, x, y) == Cardinality({z \in (x + 1)..y : Begins(kind, p, z)})
 \* closed forms (lemmas checked by MC_SessionsClock)
